@@ -100,7 +100,7 @@ def term_str(t):
     if k == 'local':
         return 'local:' + str(t[1])
     if k == 'call':
-        return t[1] + '()'
+        return t[1]
     return repr(t)
 
 
